@@ -198,3 +198,9 @@ def run(ctx, model):
                             continue
                         check(f, meth, o.text, meth in B.POSITIVE, f"recv={r[0]} arg={a[0]}")
     ctx.floor("R-RECOG", n_rec, 300, "emitter x operand templates")
+
+    # ---------------- R-REPEAT-LIT (depth-2 composition with the real classifier)
+    from . import compose
+    recs = compose.run_all(ctx, model)
+    n_lit = compose.judge_c09(ctx, model, recs)
+    ctx.floor("R-REPEAT-LIT", n_lit, 2000, "repetition decisions with the interpreted classifier")
